@@ -133,3 +133,5 @@ def correspond(seed, tier):
                 dis.append(dict(id=rid, kind="value", output=k, index=idx, shapes=(len(a), len(b))))
                 break
     return dict(evaluations=len(expect), disagreements=dis, worst_ratio=worst, distribution={"empty_bin_cases": empty}, samples=[], cases={})
+
+DRIVERS = ["drvp"]
